@@ -281,8 +281,63 @@ def toy_shard(shard):
     return p
 
 
+EXEC_TEXTS = [
+    ".data\na: .word 0x1234\nb: .word 0xFFFF\n.text\nLDA a\nADD b\nSUB a\nOR a\nAND b\nXOR a\nNOT\nINC\nDEC\nSTO 0x800\nZRO\nBRZ end\nNOP\nend: LDA b\n",
+    "LDA 0x003\nINC\nSTO 0x003\nLDA 0xFFF\nADD 0x000\n",
+    ".data\nn: .word 2\n.text\nloop: LDA n\nDEC\nSTO n\nBRZ out\nZRO\nBRZ loop\nout: XOR n\n",
+]
+
+
+def toy_exec_case(ti):
+    """Registers shown while a program EXECUTES, half-cycle by half-cycle (the states arbitrary programs reach include the
+    middle of an instruction): accu, pc and ir displays denote the reference two-phase machine's values at their widths."""
+    from vf.ref.toy import ToyRef, encode_loaded
+    sim = ToySimulation()
+    sim.load_program(EXEC_TEXTS[ti])
+    st = sim.state
+    words = [int(st.memory.read_halfword(a)) for a in range(st.max_pc + 1)]
+    data = {a: int(st.memory.read_halfword(a)) for a in range(4000, 4096) if int(st.memory.read_halfword(a))}
+    ref = ToyRef(words, data, 0)
+    n = 0
+    while n < 400:
+        reps = sim.get_register_representations()
+        want_ir = None if ref.ir is None else encode_loaded(ref.ir)
+        for name, v, bits in (("accu", ref.accu, 16), ("pc", ref.nxt, 12), ("ir", want_ir, 16)):
+            if v is None:
+                if tuple(reps[name]) != ("", "", "", ""):
+                    return n, f"after {n} half-cycles {name} is shown as {reps[name]}, the machine has no loaded instruction"
+                continue
+            d = bad_reps(reps[name], v, bits)
+            if d:
+                return n, f"after {n} half-cycles ({'middle of an instruction' if n % 2 else 'instruction boundary'}) {name}: {d}"
+        if ref.done() or sim.is_done():
+            break
+        sim.single_step()
+        if ref.phase == 1:
+            ref.first_half()
+        else:
+            ref.second_half()
+        n += 1
+    return n, None
+
+
+def toy_exec_shard(ti):
+    p = Partial()
+    n, d = toy_exec_case(ti)
+    p.evaluations += n + 1
+    p.nontrivial += 1
+    p.counters["toy-registers-shown-in-the-middle-of-an-instruction"] += n // 2
+    if d:
+        p.violation(dict(oracle="toy-registers-while-executing"), dict(kind="toy-exec", ti=ti), f"{EXEC_TEXTS[ti]!r}: {d}", size=(n, ti))
+    p.sample(dict(kind="toy-exec", ti=ti))
+    return p
+
+
 def replay(case):
     k = case["kind"]
+    if k == "toy-exec":
+        _n, d = toy_exec_case(case["ti"])
+        return [(dict(oracle="toy-registers-while-executing"), d)] if d else []
     if k == "fmt":
         d = bad_reps(get_n_bit_representations(case["v"], case["n"]), case["v"], case["n"])
         return [(dict(oracle="formatter", n=case["n"]), d)] if d else []
@@ -342,3 +397,7 @@ def run(ctx):
     shards = [("accu", lo, lo + 4096) for lo in range(0, 65536, 4096)] + [("pc", 0, 4096)] + [("ir", lo, lo + 4096) for lo in range(0, 65536, 4096)] + [("mem", lo, lo + 4096) for lo in range(0, 65536, 4096)]
     part = pmap(toy_shard, shards)
     ctx.space("toy-registers-and-memory-table", part, t0)
+    t0 = time.time()
+    part = pmap(toy_exec_shard, list(range(len(EXEC_TEXTS))))
+    ctx.space("toy-registers-while-executing", part, t0, programs=len(EXEC_TEXTS), note="after every half-cycle, against the reference two-phase machine")
+    ctx.require("toy-registers-shown-in-the-middle-of-an-instruction")
